@@ -1,17 +1,22 @@
 """C19 — child output streamed fully without deadlock; writers chunking-independent.
 
-Decided structurally, on interprocedural effects (arguments substituted into the entry function's terms), value normal
-forms and success dependencies — not on one spelling of the code:
+Decided structurally, on interprocedural effects (arguments substituted into the terms of the PUBLIC entry
+CommandExt::spawn_and_write_streams: the spawned child, its two writer parameters — whichever private function does the
+copying and whatever its signature is), value normal forms and success dependencies — not on one spelling of the code:
   R1 spawn-before-join  inside the scoped-thread closure every call through which a ScopedJoinHandle::join effect is
                         reached is dominated by every call through which a Scope::spawn effect is reached (otherwise the
                         undrained pipe can fill up and the child blocks forever)
-  R2 wait-after-drain   Child::wait is only called on the success payload of the stream-copy function
-  R3 copy completeness  each spawned thread's result is io::copy(child stream, that stream's writer) to EOF; success of
-                        the scope closure depends on the joined result of both copiers (an error of either is returned);
+  R2 wait-after-drain   Child::wait is only called on a child that exists as a success payload only if the stream-copy
+                        function returned Ok (it is that function's payload, or the spawned child handed on under that
+                        condition); nothing reachable from the entry waits
+  R3 copy completeness  each spawned thread's result is Ok only if io::copy(child stream, that stream's writer) to EOF was;
+                        success of the scope closure depends on the joined result of both copiers (an error of either is
+                        returned: `a.and(b)`, `a?; b?`, a loop over the handles with `?` or with a first-error accumulator
+                        that is found empty); the entry returns the spawned child, and only if the copier succeeded;
                         the panic payload of every joined thread (and of the scope) is re-raised; both pipes are piped;
                         the returned Output carries the tee'd buffers
   R4 tee                success of TeeWrite::write depends on write_all(buf) on both inner writers with the whole input
-                        slice and yields Ok(buf.len()); flush flushes both
+                        slice and yields Ok(buf.len()); flush flushes both (two statements or a loop over a table of both)
   R5 mapped writer      write appends every part of an in-order partition of the input (its bytes / its marker-terminated
                         segments) to the buffer field and flushes exactly when the part ends with the marker; returns
                         Ok(buf.len()); the buffer is a field (state survives across write calls); everything written to
@@ -27,7 +32,6 @@ from .lib.effects import Effects
 from .lib.discard import result_fates, verdict
 from . import C19_helpers as H
 
-WC = 'libherokubuildpack::command::write_child_process_output'
 MW = 'libherokubuildpack::write::MappedWrite::<W>::'
 SPAWN = {"crossbeam_utils::thread::Scope::<'env>::spawn", 'std::thread::scope::Scope::spawn', "std::thread::Scope::<'scope, 'env>::spawn"}
 JOIN = {"crossbeam_utils::thread::ScopedJoinHandle::<'_, T>::join", "std::thread::ScopedJoinHandle::<'scope, T>::join"}
@@ -50,22 +54,34 @@ def run(ctx, rep):
     rep.not_decided = ['scheduling / timing, kernel pipe behaviour', 'chunking independence as a value-level statement', 'io::copy ordering (std)']
     w = lambda f: '%s:%d' % (f.file, f.line)
     nf = lambda v, keep=(): H.nf(sl, v, keep)
-    wc = prog.fn(WC)
-    rep.analysed(wc)
-    is_child = lambda x: x[0] == 'param' and x[1] == wc.path and x[2] == 0
+    # the public entry: every value below is expressed in ITS terms (the spawned child, its stdout / stderr writer parameters),
+    # whichever private function the copying is delegated to and whatever that function's signature is
+    sp = prog.find_one(r'^<std::process::Command as libherokubuildpack::command::CommandExt>::spawn_and_write_streams$')
+    rep.analysed(sp)
+    is_child = lambda x: x[0] == 'call' and x[1] == 'std::process::Command::spawn'      # (payload of) Command::spawn(..)
+    is_writer = lambda x, idx: x[0] == 'param' and x[1] == sp.path and x[2] == idx
 
     # ---- the scoped-thread closure: the closure handed to thread::scope (wherever that call is spelled) ----------------
     Es = Effects(prog, sl, vocab={n: ('TSCOPE', 0) for n in SCOPE})
-    scopes = [e for e in Es.expand(wc, 'may') if e.kind == 'TSCOPE']
+    scopes = [e for e in Es.expand(sp, 'may') if e.kind == 'TSCOPE']
     sc = None
     if len(scopes) == 1:
         clv = strip(scopes[0].args[0]) if scopes[0].args else ('unknown',)
         sc = prog.fns.get(clv[1]) if clv[0] == 'closure' else None
     if sc is None:
-        rep.unproven('R1', 'scope-closure', w(wc), 'scoped-thread closure not found')
+        rep.unproven('R1', 'scope-closure', w(sp), 'scoped-thread closure not found')
         return
     scope_call = scopes[0].call
     rep.analysed(sc)
+    # the (private) stream copier: the function that opens the thread scope
+    wc = scope_call.fn
+    while wc.kind == 'Closure' and prog.fns.get(wc.parent) is not None:
+        wc = prog.fns[wc.parent]
+    rep.analysed(wc)
+    M = dict(scopes[0].mapping or {})
+    to_sp = lambda v: Es.subst(v, M)        # a value in the copier's terms, in the terms of the public entry
+    is_copier_call = lambda v: v[0] == 'call' and (v[1] == wc.path or v[1] in SCOPE)
+    thru = lambda name: name != wc.path
 
     # ---- R1 ------------------------------------------------------------------------------------------------------------
     voc = {n: ('TSPAWN', 1) for n in SPAWN}
@@ -73,7 +89,7 @@ def run(ctx, rep):
     voc.update({n: ('WAIT', 0) for n in WAITS})
     voc['std::panic::resume_unwind'] = ('REPANIC', 0)
     Et = Effects(prog, sl, vocab=voc)
-    teffs = Et.expand(wc, 'may')
+    teffs = Et.expand(sp, 'may')
     spawns = [e for e in teffs if e.kind == 'TSPAWN' and H.top_call(e, sc) is not None]
     joins = [e for e in teffs if e.kind == 'TJOIN' and H.top_call(e, sc) is not None]
     stray = [e for e in teffs if e.kind in ('TSPAWN', 'TJOIN') and H.top_call(e, sc) is None]
@@ -87,7 +103,7 @@ def run(ctx, rep):
 
     # ---- R3: what every spawned thread computes (closure value with its captures in the terms of wc) ---------------------
     Ec = Effects(prog, sl, vocab={'std::io::copy': ('COPY', 0)})
-    copies = [e for e in Ec.expand(wc, 'may') if e.kind == 'COPY']
+    copies = [e for e in Ec.expand(sp, 'may') if e.kind == 'COPY']
     streams = {}      # fld -> (reader, writer, canonical closure value, thread result)
     for s in spawns:
         clv = nf(s.args[1]) if len(s.args) > 1 else ('unknown',)
@@ -105,11 +121,12 @@ def run(ctx, rep):
     if set(streams) == {'stdout', 'stderr'} and len(copies) == 2:
         for fld, idx in (('stdout', 1), ('stderr', 2)):
             rv, wv, _, res, s = streams[fld]
-            good_w = any(x[0] == 'param' and x[1] == wc.path and x[2] == idx for x in walk(wv)) and \
-                not any(x[0] == 'param' and x[1] == wc.path and x[2] == 3 - idx for x in walk(wv))
+            good_w = any(is_writer(x, idx) for x in walk(wv)) and not any(is_writer(x, 3 - idx) for x in walk(wv))
             rep.check(good_w, 'R3', 'copier/' + fld, s.where(), 'io::copy(child.%s, %s writer)' % (fld, fld), 'the %s copier copies %s into %s' % (fld, vstr(rv)[:60], vstr(wv)[:60]))
-            r0 = strip(res)
-            rep.check(r0[0] == 'call' and r0[1] == 'std::io::copy', 'R3', 'copier-result/' + fld, s.where(), 'the copy result is the thread result', 'the copy result is not returned from the thread')
+            # the thread's result is Ok only if the copy was, whatever becomes of the byte count
+            ralts = H.value_alts(sl, res)
+            is_copy = lambda x: x[0] == 'call' and x[1] == 'std::io::copy'
+            rep.check(bool(ralts) and all(any(is_copy(strip(nf(d))) for d in ds) for _, ds in ralts), 'R3', 'copier-result/' + fld, s.where(), 'the copy result is the thread result', 'the copy result is not returned from the thread')
     else:
         rep.violated('R3', 'copiers', w(sc), 'copier threads for %s, %d io::copy effects (expected one each for stdout and stderr)' % (sorted(k for k in streams if k), len(copies)))
 
@@ -118,7 +135,7 @@ def run(ctx, rep):
         pipe that does not exist, or payload(join(<handle>)) — the io::Result the copier thread returned — where the handle
         is what Scope::spawn returned for that stream's closure"""
         out = set()
-        n = nf(v)
+        n = nf(to_sp(v))
         for a in (n[1] if n[0] == 'phi' else (n,)):
             if a[0] == 'agg' and a[1] == 'std::result::Result' and a[2] == 'Ok':
                 continue
@@ -131,8 +148,10 @@ def run(ctx, rep):
             out.update(f for f, sv in streams.items() if f and sv[2] == cv)
         return out
 
-    # success of the scope closure depends on both joined copy results; its payload is the child; wc returns the scope's result
-    alts = H.fn_alts(sl, sl, sc)
+    # success of the scope closure depends on both joined copy results; the copier returns the scope's result; the entry
+    # hands back the spawned child, and only if the copier succeeded (the child may be carried through the copier or kept by
+    # the caller)
+    alts = H.fn_alts(sl, sl, sc, optional=True)     # optional: a stream without a pipe has no copier to join
     ok = bool(alts)
     detail = []
     for payload, deps in alts:
@@ -140,8 +159,20 @@ def run(ctx, rep):
         for dv in deps:
             got |= joined_streams(dv)
         detail.append('Ok(%s) needs %s' % (vstr(payload)[:30], sorted(got)))
-        ok = ok and got >= {'stdout', 'stderr'} and any(is_child(strip(x)) for x in walk(payload))
+        ok = ok and got >= {'stdout', 'stderr'}
     ok = ok and any(x[0] == 'call' and x[1] in SCOPE for x in walk(nf(sl.local(wc, 0))))
+    keepw = (wc.path,)
+    ealts = H.fn_alts(sl, sl, sp, thru=thru) if wc is not sp else [(to_sp(p), [scopes[0].args[0]]) for p, _ in alts]
+    ok = ok and bool(ealts)
+    for payload, deps in ealts:
+        pv = strip(nf(payload, keep=keepw))
+        if is_copier_call(pv):      # the copier's own payload: the child travels through the scope closure
+            good = all(any(is_child(strip(x)) for x in walk(nf(to_sp(p)))) for p, _ in alts)
+        else:
+            good = is_child(pv) and any(is_copier_call(strip(nf(d, keep=keepw))) for d in deps)
+        if not good:
+            detail.append('entry: Ok(%s)' % vstr(pv)[:40])
+        ok = ok and good
     rep.check(ok, 'R3', 'combine', w(sc), 'Ok(child) only if the joined stdout and stderr copy results are both Ok: an error of either copier is returned',
               'copier results are not combined with and(): success does not depend on both joined copy results (%s)' % '; '.join(detail)[:160])
 
@@ -156,8 +187,6 @@ def run(ctx, rep):
     ok = len(joins) > 0 and all(reraised(j.call, j.args) for j in joins) and reraised(scope_call, None)
     rep.check(ok, 'R3', 'panic-reraised', w(wc), 'a panicked copier thread re-raises in the caller', 'copier panics are swallowed')
 
-    sp = prog.find_one(r'^<std::process::Command as libherokubuildpack::command::CommandExt>::spawn_and_write_streams$')
-    rep.analysed(sp)
     piped = sorted(c.name.split('::')[-1] for g in [sp] + prog.closures_of(sp) for c in g.calls if c.name in ('std::process::Command::stdout', 'std::process::Command::stderr')
                    and strip(sl.operand(g, c.args[1]))[0] == 'call' and strip(sl.operand(g, c.args[1]))[1] == 'std::process::Stdio::piped')
     rep.check(piped == ['stderr', 'stdout'], 'R3', 'piped', w(sp), 'both streams are piped', 'piped streams: %s' % piped)
@@ -192,11 +221,16 @@ def run(ctx, rep):
             top = prog.fns[top.parent]
         rep.analysed(top)
         we = [e for e in Et.expand(top, 'may') if e.kind == 'WAIT' and e.call is c]
-        # the waited-for child is the success payload of (a function returning) the stream copier's result
+        # the waited-for child only exists (as a success payload) once the stream copier has returned Ok: every way the
+        # receiver's source can succeed depends on the copier call, and its payload is the spawned child
         ok = bool(we)
         for e in we:
-            recv = strip(nf(e.args[0], keep=(WC,))) if e.args else ('unknown',)
-            ok = ok and recv[0] == 'call' and recv[1] == WC
+            a0 = e.args[0] if e.args else ('unknown',)
+            xalts = H.value_alts(sl, a0[1], thru=thru) if a0[0] == 'unwrap' else []
+            ok = ok and bool(xalts)
+            for p, ds in xalts:
+                pv = strip(nf(p, keep=keepw))
+                ok = ok and (is_copier_call(pv) or (is_child(pv) and any(is_copier_call(strip(nf(d, keep=keepw))) for d in ds)))
         rep.check(ok, 'R2', 'wait-after-copy', c.where(), 'wait() runs on the child returned by the stream copier (after both streams hit EOF)',
                   'Child::wait is not sequenced after the stream copy')
     no_wait_inside = not any(e.kind == 'WAIT' for e in teffs)
@@ -211,7 +245,7 @@ def run(ctx, rep):
     def target_of(v, fn):
         v = strip(v)
         return v[2] if v[0] == 'field' and self_of(fn)(strip(v[1])) else None
-    weffs = [e for e in Ew.expand(tw, 'may') if e.kind in ('WRITE_ALL', 'WRITE_SOME')]
+    weffs = [e for e in H.unroll(Ew, Ew.expand(tw, 'may')) if e.kind in ('WRITE_ALL', 'WRITE_SOME')]
     wa = [e for e in weffs if e.kind == 'WRITE_ALL']
     targets = sorted(t for t in (target_of(e.args[0], tw) for e in wa) if t)
     whole = all(H.is_param(e.args[1], tw, 1) for e in wa)
@@ -238,7 +272,7 @@ def run(ctx, rep):
     rep.check(bool(talts) and all(needs_both(ds) for _, ds in talts) and len(wa) == 2, 'R4', 'both-before-ok', w(tw), 'both writes precede the success return', 'a target can be skipped on a success path')
     tf = prog.find_one(r'^<libherokubuildpack::write::TeeWrite<A, B> as std::io::Write>::flush$')
     rep.analysed(tf)
-    fl = sorted(t for t in (target_of(e.args[0], tf) for e in Ew.expand(tf, 'may') if e.kind == 'FLUSH') if t)
+    fl = sorted(t for t in (target_of(e.args[0], tf) for e in H.unroll(Ew, Ew.expand(tf, 'may')) if e.kind == 'FLUSH') if t)
     rep.check(fl == ['inner_a', 'inner_b'], 'R4', 'flush-both', w(tf), 'flush flushes both targets', 'tee flush targets: %s' % fl)
 
     # ---- R5 --------------------------------------------------------------------------------------------
